@@ -557,6 +557,9 @@ def run(chk) -> None:
     chk.robust |= {"stack-radius", "centroid-mean", "centroid-axes", "centroid-atoms", "stack-normals", "stack-offset", "stack-labels", "stack-emission", "stack-topology-enum", "base-normal-eval"}
     fi = repo.func(AN, "find_stackings")
     chk.note_function(fi)
+    from checks import c03e as _c03e
+
+    fi = _c03e.unfolded(repo, fi)  # a generator helper consumed here is read as the loop it stands for
     if not any(isinstance(l, ast.For) and isinstance(l.iter, ast.Call) and astq.callee_name(l.iter) == "query_pairs" for l in fi.node.body):
         from checks import c03e as _c03e
 
